@@ -129,7 +129,7 @@ Proof.
     inv_some H. intros i (X & Y). cbn [mt set_cpc set_cl set_mt mt_ring done next] in X, Y.
     rewrite getj_set_cpc, getj_set_mt.
     destruct (N.eq_dec i (next (mt s))) as [->|Hne].
-    + rewrite getj_set_job_eq by exact Hkl. destruct (_ || _); unfold Pfl; cbn [j_upd_work j_flushed j_csize]; [lia|]. rewrite F0. lia.
+    + rewrite getj_set_job_eq by exact Hkl. destruct (negb _); unfold Pfl; cbn [j_upd_work j_flushed j_csize]; [lia|]. rewrite F0. lia.
     + assert (Hi0 : inflight s i) by (split; lia).
       rewrite getj_set_job_neq by (intro E; symmetry in E; revert E; apply inflight_not_next; auto).
       rewrite getj_set_pl. apply F; exact Hi0.
